@@ -136,16 +136,16 @@ type CheckRow struct {
 	M        uint64 `json:"m"`
 }
 type Dump struct {
-	KVs      []KVRow      `json:"kvs"`
-	Tombs    [][2]string  `json:"tombs"` // key, index (decimal)
-	Sessions []SessRow    `json:"sessions"`
-	SChecks  [][3]string  `json:"schecks"`
-	Queries  [][2]string  `json:"queries"`
-	Nodes    []NodeRow    `json:"nodes"`
-	Services []SvcRow     `json:"services"`
-	Checks   []CheckRow   `json:"checks"`
-	Index    [][2]string  `json:"index"`
-	Delay    []string     `json:"lockdelay"`
+	KVs      []KVRow     `json:"kvs"`
+	Tombs    [][2]string `json:"tombs"` // key, index (decimal)
+	Sessions []SessRow   `json:"sessions"`
+	SChecks  [][3]string `json:"schecks"`
+	Queries  [][2]string `json:"queries"`
+	Nodes    []NodeRow   `json:"nodes"`
+	Services []SvcRow    `json:"services"`
+	Checks   []CheckRow  `json:"checks"`
+	Index    [][2]string `json:"index"`
+	Delay    []string    `json:"lockdelay"`
 }
 
 type TRes struct {
@@ -165,6 +165,7 @@ type Res struct {
 	Results []TRes   `json:"results,omitempty"`
 	Errors  [][2]any `json:"errors,omitempty"` // [op index, enum name]
 }
+
 // ---------------------------------------------------------------- universe
 
 var (
@@ -180,6 +181,7 @@ var (
 	values    = [][]byte{{}, {1, 2, 3}, {255, 0}}
 	queryIDs  = []string{"99999999-9999-9999-9999-999999999991", "99999999-9999-9999-9999-999999999992"}
 )
+
 func dirEnt(q *KVReq) structs.DirEntry {
 	v, _ := hex.DecodeString(q.Value)
 	if len(v) == 0 {
@@ -406,8 +408,12 @@ func projectDump(st *state.Store) Dump {
 	sort.Slice(d.SChecks, func(i, j int) bool { return fmt.Sprint(d.SChecks[i]) < fmt.Sprint(d.SChecks[j]) })
 	sort.Slice(d.Queries, func(i, j int) bool { return d.Queries[i][0] < d.Queries[j][0] })
 	sort.Slice(d.Nodes, func(i, j int) bool { return d.Nodes[i].Name < d.Nodes[j].Name })
-	sort.Slice(d.Services, func(i, j int) bool { return d.Services[i].Node+"\x00"+d.Services[i].ID < d.Services[j].Node+"\x00"+d.Services[j].ID })
-	sort.Slice(d.Checks, func(i, j int) bool { return d.Checks[i].Node+"\x00"+d.Checks[i].ID < d.Checks[j].Node+"\x00"+d.Checks[j].ID })
+	sort.Slice(d.Services, func(i, j int) bool {
+		return d.Services[i].Node+"\x00"+d.Services[i].ID < d.Services[j].Node+"\x00"+d.Services[j].ID
+	})
+	sort.Slice(d.Checks, func(i, j int) bool {
+		return d.Checks[i].Node+"\x00"+d.Checks[i].ID < d.Checks[j].Node+"\x00"+d.Checks[j].ID
+	})
 	sort.Slice(d.Index, func(i, j int) bool { return d.Index[i][0] < d.Index[j][0] })
 	return d
 }
@@ -447,6 +453,7 @@ func projectResult(out interface{}) Res {
 	}
 	return Res{Kind: "err", Err: fmt.Sprintf("EOther:unexpected result type %T", out)}
 }
+
 // ---------------------------------------------------------------- generator
 
 type coreGen struct {
@@ -791,7 +798,6 @@ func (g *coreGen) next() Cmd {
 	return c
 }
 
-
 // coreEntry turns a model-vocabulary command into a log entry.
 func coreEntry(c *Cmd) Entry {
 	data := encodeCore(c)
@@ -802,8 +808,3 @@ func coreEntry(c *Cmd) Entry {
 	cc := *c
 	return Entry{Idx: c.Idx, Kind: kind, Type: int(data[0]), Data: hex.EncodeToString(data), Model: &cc}
 }
-
-var _ = rand.Int
-var _ = reflect.TypeOf
-var _ = strings.Contains
-var _ = time.Second
